@@ -38,6 +38,7 @@ fn main() {
         "bb_accept" => { run = bb::run_accept_implies_readback; gen = bb::gen_accept_implies_readback; }
         "fileview" => { run = misc::run_fileview; gen = misc::gen_fileview; }
         "autosql" => { run = misc::run_autosql; gen = misc::gen_autosql; }
+        "indexer" => { run = misc::run_indexer; gen = misc::gen_indexer; }
         "nonleaf_at_eof" => { run = misc::run_nonleaf_at_eof; gen = misc::gen_nonleaf_at_eof; }
         _ => { eprintln!("unknown driver {}", driver); std::process::exit(2); }
     }
